@@ -17,11 +17,16 @@ def _order(names, key):
 
 
 class _ScandirCtx:
+    """What os.scandir returns: an iterator (os.walk calls next() on it) that is also a context manager."""
+
     def __init__(self, entries):
-        self._e = entries
+        self._it = iter(entries)
 
     def __iter__(self):
-        return iter(self._e)
+        return self
+
+    def __next__(self):
+        return next(self._it)
 
     def __enter__(self):
         return self
